@@ -201,6 +201,10 @@ func (c *fctx) callAbstract(x *ast.CallExpr, root *absRoot, path string, fn *typ
 		args = append(args, t)
 	}
 	c.noteMut(x)
+	if c.f.nilable[root.v] && path == sel0(path) {
+		// a method call through a nil interface value panics (after the arguments were evaluated)
+		pre = append(pre, fmt.Sprintf("do _ <- gptr_check %s;", c.readVar(c.absNilName(root.v))))
+	}
 	st := c.nameOf(root.v)
 	cur := c.readVar(st)
 	pats := []string{c.assignVar(st)}
@@ -642,10 +646,32 @@ func (c *fctx) callTranslated(x *ast.CallExpr, callee *fnInfo) (pre []string, te
 		}
 	}
 	// which of the caller's abstract objects each abstract object of the callee is
-	absArg := func(calleeRoot *absRoot, e ast.Expr) string {
+	absArg := func(calleeRoot *absRoot, e ast.Expr) []string {
+		if id, ok := ast.Unparen(e).(*ast.Ident); ok {
+			if _, isNil := c.info.Uses[id].(*types.Nil); isNil {
+				// the nil interface value: no state, every method call panics (the callee tests its flag)
+				if !callee.nilable[calleeRoot.v] {
+					c.failf(e, "nil handed to the abstract object %s of %s, which is never compared with nil", calleeRoot.v.Name(), callee.obj.Name())
+				}
+				head = append(head, "unit")
+				for _, m := range calleeRoot.methods {
+					n := 1 + m.fn.Type().(*types.Signature).Params().Len()
+					head = append(head, "(fun "+strings.TrimSpace(strings.Repeat("_ ", n))+" => Panic 5)")
+				}
+				pats = append(pats, "_")
+				return []string{"true", "tt"}
+			}
+		}
 		root, path := c.absPath(e)
 		if root == nil {
 			c.failf(e, "argument for the abstract object %s must be an abstract object of the caller", calleeRoot.v.Name())
+		}
+		var flag []string
+		if callee.nilable[calleeRoot.v] {
+			if !c.f.nilable[root.v] || path != "" {
+				c.failf(e, "internal: %s is handed to a parameter that is compared with nil but has no nil flag", root.v.Name())
+			}
+			flag = []string{c.readVar(c.absNilName(root.v))}
 		}
 		head = append(head, root.stName())
 		for _, m := range calleeRoot.methods {
@@ -665,7 +691,7 @@ func (c *fctx) callTranslated(x *ast.CallExpr, callee *fnInfo) (pre []string, te
 		st := c.nameOf(root.v)
 		cur := c.readVar(st)
 		pats = append(pats, c.assignVar(st))
-		return cur
+		return append(flag, cur)
 	}
 	var recvArg string
 	if callee.recv != nil {
@@ -673,7 +699,7 @@ func (c *fctx) callTranslated(x *ast.CallExpr, callee *fnInfo) (pre []string, te
 		if !ok {
 			c.failf(x, "call of the method %s without a receiver expression", callee.obj.FullName())
 		}
-		recvArg = absArg(callee.absOf(callee.recv), sel.X)
+		recvArg = strings.Join(absArg(callee.absOf(callee.recv), sel.X), " ")
 	}
 	var pargs []string
 	for i, a := range x.Args {
@@ -685,7 +711,7 @@ func (c *fctx) callTranslated(x *ast.CallExpr, callee *fnInfo) (pre []string, te
 			continue
 		}
 		if r := callee.absOf(p); r != nil {
-			pargs = append(pargs, absArg(r, a))
+			pargs = append(pargs, absArg(r, a)...)
 			continue
 		}
 		if callee.mutated[i] {
@@ -734,6 +760,7 @@ func (c *fctx) callTranslated(x *ast.CallExpr, callee *fnInfo) (pre []string, te
 	}
 	args = append(args, recvArgs...)
 	args = append(args, pargs...)
+	args = append(args, c.calleeOracles(x, callee)...)
 	for i := 0; i < callee.flatResultCount(); i++ {
 		t := c.fresh()
 		pats = append(pats, t)
@@ -803,6 +830,7 @@ type loopFrame struct {
 	free       []string // variables declared outside that are only read: arguments
 	usesRec    bool     // the body calls the enclosing function: the loop takes it as rec_
 	canExit    bool     // has a condition or a break: can end without returning from the function
+	oracle     string   // a range statement over a map: the name of its order oracle
 	done       bool
 }
 
@@ -819,6 +847,10 @@ func (c *fctx) sortVars(ns []string) {
 // the variables declared outside the loop that its condition, post statement or body may assign
 // (found syntactically; assignVar checks during the translation that none was missed)
 func (c *fctx) carriedOf(fr *loopFrame, s *ast.ForStmt) []string {
+	return c.carriedOfNodes(fr, []ast.Node{s.Cond, s.Post, s.Body})
+}
+
+func (c *fctx) carriedOfNodes(fr *loopFrame, nodes []ast.Node) []string {
 	set := map[string]bool{}
 	var add func(e ast.Expr)
 	add = func(e ast.Expr) {
@@ -906,7 +938,7 @@ func (c *fctx) carriedOf(fr *loopFrame, s *ast.ForStmt) []string {
 		}
 		return true
 	}
-	for _, n := range []ast.Node{s.Cond, s.Post, s.Body} {
+	for _, n := range nodes {
 		if n != nil && !isNilNode(n) {
 			ast.Inspect(n, visit)
 		}
@@ -999,7 +1031,9 @@ func (c *fctx) loopCall(fr *loopFrame, lf string) string {
 	if c.f.needsRFuel {
 		parts = append(parts, "rfuel")
 	}
-	parts = append(parts, "fuel")
+	if c.f.needsFuel {
+		parts = append(parts, "fuel")
+	}
 	for _, g := range c.f.globals {
 		parts = append(parts, globalName(g))
 	}
@@ -1069,7 +1103,9 @@ func (c *fctx) translateLoop(s *ast.ForStmt) *loopFrame {
 	if c.f.needsRFuel {
 		binders = append(binders, "(rfuel : nat)")
 	}
-	binders = append(binders, "(fuel : nat)")
+	if c.f.needsFuel {
+		binders = append(binders, "(fuel : nat)")
+	}
 	for _, g := range c.f.globals {
 		if isIntTable(g.Type()) {
 			binders = append(binders, fmt.Sprintf("(%s : list Z)", globalName(g)))
@@ -1156,6 +1192,7 @@ func (t *tr) analyseExt(f *fnInfo, seen map[*fnInfo]bool) {
 	info := f.pkg.TypesInfo
 	sig := f.obj.Type().(*types.Signature)
 	f.owned, f.addrOf = map[*types.Var]bool{}, map[*types.Var]bool{}
+	f.nilable = map[*types.Var]bool{}
 	f.nErrCtor, f.errCtorIx = map[string]int{}, map[ast.Node]int{}
 	if recv := sig.Recv(); recv != nil {
 		rt := recv.Type()
@@ -1216,6 +1253,21 @@ func (t *tr) analyseExt(f *fnInfo, seen map[*fnInfo]bool) {
 		switch x := n.(type) {
 		case *ast.ForStmt:
 			f.hasLoop, f.needsFuel = true, true
+		case *ast.RangeStmt:
+			f.hasRange = true
+		case *ast.BinaryExpr:
+			// w == nil / w != nil for an abstract object w: it gets a nil flag
+			if x.Op == token.EQL || x.Op == token.NEQ {
+				for _, pr := range [][2]ast.Expr{{x.X, x.Y}, {x.Y, x.X}} {
+					if id, ok := ast.Unparen(pr[1]).(*ast.Ident); ok {
+						if _, isNil := info.Uses[id].(*types.Nil); isNil {
+							if root, path := absPathOf(f, info, pr[0]); root != nil && path == "" {
+								f.nilable[root.v] = true
+							}
+						}
+					}
+				}
+			}
 		case *ast.AssignStmt:
 			if x.Tok == token.DEFINE && len(x.Lhs) == 1 && len(x.Rhs) == 1 {
 				if id, ok := x.Lhs[0].(*ast.Ident); ok {
@@ -1407,6 +1459,9 @@ func (t *tr) checkPointerCallSites(f *fnInfo) string {
 // ---------- a pointer receiver *T for a struct T of translatable fields ----------
 
 func isEmptyStruct(t types.Type) bool {
+	if t == nil { // the blank identifier
+		return false
+	}
 	if _, isTP := t.(*types.TypeParam); isTP {
 		return false
 	}
